@@ -18,6 +18,7 @@ N = int(os.environ.get("VERIF_E4_N", "20"))
 SEED = int(os.environ.get("VERIF_E4_SEED", "0"))
 BATCH = [int(i) for i in os.environ.get("VERIF_E4_BATCH", "0").split(",")]
 FUEL = int(os.environ.get("VERIF_E5_FUEL", "600"))
+REGION = os.environ.get("VERIF_E4_REGION") or None
 XLO, XHI = -3, 4
 RMAX = 1000
 
@@ -26,12 +27,12 @@ if KIND == "c32":
     ALL = e4_syntax.programs()
     EXTRA, MODEXTRA = e4_syntax.EXTRA_ENV, e4_syntax.MODULE_EXTRA
 else:
-    ALL = e4_corpus.corpus(KIND, N, SEED, None)
+    ALL = e4_corpus.corpus(KIND, N, SEED, REGION)
     EXTRA, MODEXTRA = None, ""
 SRCS = [ALL[i] for i in BATCH if i < len(ALL)]
 NB = len(SRCS)
 _dir = os.environ.get("VERIF_TWIN_DIR") or "/var/tmp"
-_tag = f"{BATCH[0]}-{BATCH[-1]}x{len(BATCH)}"
+_tag = f"{BATCH[0]}-{BATCH[-1]}x{len(BATCH)}" + (f"_{REGION}" if REGION else "")
 _path = os.path.join(_dir, f"e5mod_{KIND}_{_tag}_{os.getpid()}.py")
 with open(_path, "w") as _f:
     _f.write(e4_corpus.module_text(SRCS, MODEXTRA))
@@ -117,8 +118,8 @@ def h_equiv5(which: int, x: int, y: int, r0: int, r1: int, r2: int, r3: int, r4:
         return True
     a = e4.outcome(entry[0].run_native, (x, y), ra, EXTRA)
     if a != b or ra.trace != rb.trace:
-        with NoTracing():
-            LAST_DETAIL = (f"program #{BATCH[k]} ({entry[0].name}): CPython {a} with events {ra.trace}; checked program {b} with events {rb.trace}\n{entry[0].src}")
+        # (formatted under tracing: the values may still be symbolic here; in the native replay they are concrete)
+        LAST_DETAIL = f"program #{BATCH[k]} ({entry[0].name}): CPython {a} with events {ra.trace}; checked program {b} with events {rb.trace}\n{entry[0].src}"
         return False
     return True
 
